@@ -221,16 +221,23 @@ class SymExec:
             if isinstance(s, ast.If):
                 test = ast.unparse(s.test)
                 if 'isinstance' in test:
-                    if 'Wavefront' in test:
-                        # `if isinstance(fpm, Wavefront): ... else: ...` : execute the ndarray branch
-                        self.block(s.orelse, env, res)
-                    continue                       # broadcasting of scalars to pairs: the symbolic values are pairs already
+                    truth = self.isinstance_truth(s.test, env)
+                    if truth is None:
+                        raise Untranslatable(f'type test not decidable symbolically: {test[:60]}')
+                    if self.block(s.body if truth else s.orelse, env, res):
+                        return True
+                    continue
                 if test.startswith('method =='):
                     self.methods(s, env, res)
                     continue
                 if 'is None' in test or test.startswith('self.space'):
                     continue                       # argument validation
                 if test == 'return_more':
+                    # `if return_more: return a, b, c` : remember the order of the extra planes
+                    if len(s.body) == 1 and isinstance(s.body[0], ast.Return) and isinstance(s.body[0].value, ast.Tuple):
+                        res['return_more'] = [ast.unparse(x) for x in s.body[0].value.elts]
+                    else:
+                        raise Untranslatable('return_more branch is not a plain `return a, b, ...`')
                     continue
                 # data-dependent branch that only re-assigns names: value = if c then new else old
                 c = self.cond(s.test, env)
@@ -249,9 +256,35 @@ class SymExec:
             if isinstance(s, ast.Raise):
                 continue
             if isinstance(s, ast.Expr):
-                continue
+                # a bare call statement may act in place on an array (np.conj(x, out=x), x.sort(), ...): not modelled
+                raise Untranslatable(f'bare expression statement {ast.unparse(s)[:60]}')
             raise Untranslatable(f'statement {ast.unparse(s)[:60]}')
         return False
+
+    def isinstance_truth(self, test, env):
+        """truth value of `[not] isinstance(name, T)` for the symbolic value bound to `name`: per-axis pairs are Iterable,
+        scalars are int; whether a mask is a Wavefront is a mode of the run (`<name>:is_wavefront` in env)"""
+        neg, t = False, test
+        if isinstance(t, ast.UnaryOp) and isinstance(t.op, ast.Not):
+            neg, t = True, t.operand
+        if not (isinstance(t, ast.Call) and ast.unparse(t.func) == 'isinstance' and len(t.args) == 2
+                and isinstance(t.args[0], ast.Name)):
+            return None
+        nm, ty = t.args[0].id, ast.unparse(t.args[1])
+        v = env.get(nm)
+        if ty.endswith('Iterable'):
+            if v is None:
+                return None
+            truth = isinstance(v, Tup)
+        elif ty == 'int':
+            if v is None:
+                return None
+            truth = isinstance(v, str)
+        elif ty == 'Wavefront':
+            truth = bool(env.get(nm + ':is_wavefront', False))
+        else:
+            return None
+        return (not truth) if neg else truth
 
     def merge(self, c, a, b):
         if isinstance(a, Tup) and isinstance(b, Tup) and len(a.elts) == len(b.elts):
@@ -379,22 +412,44 @@ def emit_scalar(g, mod, py, lean, fallback_args):
 
 
 def emit_fixed(g, mod, py, prefix, want):
-    """ffsQ0/ffsQ1/ffsShift0/ffsShift1 (prefix 'ffs') from focus_fixed_sampling, same for 'ufs'"""
+    """ffsQ0/ffsQ1/ffsShift0/ffsShift1 (prefix 'ffs') from focus_fixed_sampling, same for 'ufs'; plus the output sample
+    counts the transform is given when `output_samples` is a single int, and the default of the `shift` parameter"""
     def build():
         fn = get_def(mod, py)
         res = SymExec(mod, scalar_funcs(mod)).run(fn, fs_env())
         q, sh, so, ary = transform_args(res, want)
         if ary != 'wavefunction' or so != ('M0', 'M1'):
             raise Untranslatable('the transform is not applied to the input array with the requested output samples')
+        if res['return'] != '<field>':
+            raise Untranslatable('the value returned is not the untouched result of the transform')
         out = []
         for nm, term in ((f'{prefix}Q0', q[0]), (f'{prefix}Q1', q[1]), (f'{prefix}Shift0', sh[0]), (f'{prefix}Shift1', sh[1])):
             out.append(f'def {nm} ({FS_PARAMS} : K) : K :=\n  {typed(term)}')
+        # a single int as sample count
+        env = fs_env()
+        env['output_samples'] = 'Mint'
+        res_i = SymExec(mod, scalar_funcs(mod)).run(fn, env)
+        _, _, so_i, _ = transform_args(res_i, want)
+        for a in (0, 1):
+            out.append(f'def {prefix}IntSamples{a} (Mint s0 s1 : K) : K :=\n  {typed(so_i[a])}')
+        # default of the shift parameter
+        names, dfl = positional(ast.Call(func=ast.Name(id=py, ctx=ast.Load()), args=[], keywords=[]), fn)
+        d = dfl.get('shift')
+        if not (isinstance(d, (ast.Tuple, ast.List)) and len(d.elts) == 2):
+            raise Untranslatable('default shift is not a pair')
+        tr = Tr({}, mode='num')
+        for a in (0, 1):
+            out.append(f'def {prefix}DefaultShift{a} : K :=\n  {typed(tr.expr(d.elts[a]))}')
         return '\n'.join(out)
     fb = []
     for a, s in ((0, 's0'), (1, 's1')):
         fb.append(f'def {prefix}Q{a} ({FS_PARAMS} : K) : K := {M}.axisQ {s} input_dx prop_dist wavelength output_dx')
     for a in (0, 1):
         fb.append(f'def {prefix}Shift{a} ({FS_PARAMS} : K) : K := {M}.shiftSamples shift{a} output_dx')
+    for a in (0, 1):
+        fb.append(f'def {prefix}IntSamples{a} (Mint s0 s1 : K) : K := Mint')
+    for a in (0, 1):
+        fb.append(f'def {prefix}DefaultShift{a} : K := (Num.ofInt (0) : K)')
     g.item(py, f'prysm/propagation.py:{py}', lambda: get_def(mod, py), build, '\n'.join(fb))
 
 
@@ -428,9 +483,22 @@ def shifted_ortho_transform(fn):
     return ast.unparse(t.func), norm, ast.unparse(e.func), ast.unparse(t.args[0].func), t.args[0].args[0]
 
 
-def generate(repo):
-    g = Gen('C03', imports=['PrysmVerif.Num', 'PrysmVerif.Model.C03'], header=HEADER)
-    pr, _ = load(repo, 'prysm/propagation.py')
+def _strip(e):
+    """drop no-op wrappers: float(x), np.asarray(x), np.asanyarray(x), np.array(x)"""
+    while isinstance(e, ast.Call) and len(e.args) == 1 and not e.keywords and \
+            ast.unparse(e.func) in ('float', 'np.asarray', 'np.asanyarray', 'np.array', 'numpy.asarray'):
+        e = e.args[0]
+    return e
+
+
+def _endswith(call, names):
+    return isinstance(call, ast.Call) and ast.unparse(call.func).split('.')[-1] in names
+
+
+def c03_items(g, ft, pr, repo):
+    g.chunks.append(HEADER)
+    co, _ = load(repo, 'prysm/coordinates.py')
+    rd, _ = load(repo, 'prysm/_richdata.py')
 
     emit_scalar(g, pr, 'Q_for_sampling', 'qForSampling', 'input_diameter prop_dist wavelength output_dx')
     emit_scalar(g, pr, 'pupil_sample_to_psf_sample', 'pupilToPsf', 'pupil_sample samples wavelength efl')
@@ -445,7 +513,8 @@ def generate(repo):
             fn = get_def(pr, f'Wavefront.{meth}')
             (c,) = find_calls(fn, conv_py)
             (r,) = find_calls(fn, route)
-            if ast.unparse(r) != f'{route}(self.data, Q=Q)':
+            _, rargs = positional(r, get_def(pr, route))
+            if ast.unparse(_strip(rargs['wavefunction'])) != 'self.data' or ast.unparse(rargs['Q']) != 'Q':
                 raise Untranslatable(f'{meth} does not propagate self.data with Q')
             data_name = None
             for st in fn.body:
@@ -457,35 +526,67 @@ def generate(repo):
             env = {'self.dx': 'self_dx', 'self.wavelength': 'self_wavelength', 'efl': 'efl',
                    f'{data_name}.shape': Tup(['N0', 'N1'])}
             term = ex.ev(c, env)
-            # the reported value must be what is stored in the returned Wavefront
+            # the reported value must be what is stored in the returned Wavefront, together with the array and the space
             tgt = [st.targets[0].id for st in fn.body if isinstance(st, ast.Assign) and st.value is c]
-            rets = [n for n in ast.walk(fn) if isinstance(n, ast.Return)]
-            (ret,) = rets
-            space = 'psf' if meth == 'focus' else 'pupil'
-            if ast.unparse(ret.value) != f"Wavefront({data_name}, self.wavelength, {tgt[0]}, space='{space}')":
+            (ret,) = [n for n in ast.walk(fn) if isinstance(n, ast.Return)]
+            if not (isinstance(ret.value, ast.Call) and ast.unparse(ret.value.func) == 'Wavefront'):
+                raise Untranslatable('does not return a Wavefront')
+            _, wa = positional(ret.value, get_def(pr, 'Wavefront.__init__'), skip_self=True)
+            if len(tgt) != 1 or ast.unparse(wa['dx']) != tgt[0] or ast.unparse(wa['cmplx_field']) != data_name \
+                    or ast.unparse(wa['wavelength']) != 'self.wavelength':
                 raise Untranslatable('returned Wavefront is not (data, wavelength, dx)')
-            return f'def {meth}Dx (self_dx N0 N1 self_wavelength efl : K) : K :=\n  {typed(term)}'
+            sp = wa.get('space')
+            if not (isinstance(sp, ast.Constant) and isinstance(sp.value, str)):
+                raise Untranslatable('space of the returned Wavefront is not a literal')
+            want = 'psf' if meth == 'focus' else 'pupil'
+            return (f'def {meth}Dx (self_dx N0 N1 self_wavelength efl : K) : K :=\n  {typed(term)}\n'
+                    f'def {meth}SpaceOk : Bool := {"true" if sp.value == want else "false"}')
         conv = 'pupilToPsf' if meth == 'focus' else 'psfToPupil'
         g.item(f'Wavefront.{meth}', f'prysm/propagation.py:Wavefront.{meth}', lambda: get_def(pr, f'Wavefront.{meth}'), build,
-               f'def {meth}Dx (self_dx N0 N1 self_wavelength efl : K) : K := {M}.{conv} self_dx N1 self_wavelength efl')
+               f'def {meth}Dx (self_dx N0 N1 self_wavelength efl : K) : K := {M}.{conv} self_dx N1 self_wavelength efl\n'
+               f'def {meth}SpaceOk : Bool := true')
     reported('focus', 'pupil_sample_to_psf_sample', 'focus')
     reported('unfocus', 'psf_sample_to_pupil_sample', 'unfocus')
 
-    # ---- the free functions focus / unfocus: pad by Q, ifftshift inside, fftshift outside, ortho norm
+    # ---- the free functions focus / unfocus: which transform sits between which index rotations, with which norm, on what
     def fft_route(py, call):
-        def check():
+        def build():
             fn = get_def(pr, py)
             T, norm, outer, inner, x = shifted_ortho_transform(fn)
+            tname, oname, iname = T.split('.')[-1], outer.split('.')[-1], inner.split('.')[-1]
+            if tname not in ('fft2', 'ifft2') or oname not in ('fftshift', 'ifftshift') or iname not in ('fftshift', 'ifftshift'):
+                raise Untranslatable('not shift(transform(shift(x)))')
+            if norm is None or not (norm.startswith("'") or norm.startswith('"')):
+                raise Untranslatable('norm is not a string literal')
             if not isinstance(x, ast.Name):
                 raise Untranslatable('transformed array is not a local name')
-            binds = [ast.unparse(st.value) for st in ast.walk(fn) if isinstance(st, ast.Assign) and len(st.targets) == 1
-                     and isinstance(st.targets[0], ast.Name) and st.targets[0].id == x.id]
             arg = fn.args.args[0].arg
-            pads_ok = sorted(binds) == sorted([f'pad2d({arg}, Q)', arg])
-            return (T == f'fft.{call}' and norm == "'ortho'" and outer == 'fft.fftshift' and inner == 'fft.ifftshift' and pads_ok)
-        return check
-    fact3(g, 'focusIsShiftedOrthoFft2OfPad', 'prysm/propagation.py:focus', lambda: get_def(pr, 'focus'), fft_route('focus', 'fft2'))
-    fact3(g, 'unfocusIsShiftedOrthoIfft2OfPad', 'prysm/propagation.py:unfocus', lambda: get_def(pr, 'unfocus'), fft_route('unfocus', 'ifft2'))
+            binds = [_strip(st.value) for st in ast.walk(fn) if isinstance(st, ast.Assign) and len(st.targets) == 1
+                     and isinstance(st.targets[0], ast.Name) and st.targets[0].id == x.id]
+            pads, plain = 0, 0
+            for bnd in binds:
+                if isinstance(bnd, ast.Name) and bnd.id == arg:
+                    plain += 1
+                elif isinstance(bnd, ast.Call) and ast.unparse(bnd.func).split('.')[-1] == 'pad2d':
+                    _, pa = positional(bnd, get_def(ft, 'pad2d'))
+                    if ast.unparse(_strip(pa['array'])) != arg or ast.unparse(pa['Q']) != 'Q' or pa.get('out_shape') is not None \
+                            and ast.unparse(pa['out_shape']) != 'None':
+                        raise Untranslatable('pad2d is not called as pad2d(x, Q)')
+                    pads += 1
+                else:
+                    raise Untranslatable('transformed array has another source')
+            if pads != 1 or plain > 1:
+                raise Untranslatable('padding statements not recognised')
+            nm = py
+            return (f'def {nm}RouteTransform : String := "{tname}"\n'
+                    f'def {nm}RouteOuter : String := "{oname}"\n'
+                    f'def {nm}RouteInner : String := "{iname}"\n'
+                    f'def {nm}RouteNorm : String := {norm.replace(chr(39), chr(34))}')
+        return build
+    for py, call in (('focus', 'fft2'), ('unfocus', 'ifft2')):
+        g.item(f'{py}.route', f'prysm/propagation.py:{py}', (lambda nm: (lambda: get_def(pr, nm)))(py), fft_route(py, call),
+               f'def {py}RouteTransform : String := "{call}"\ndef {py}RouteOuter : String := "fftshift"\n'
+               f'def {py}RouteInner : String := "ifftshift"\ndef {py}RouteNorm : String := "ortho"')
 
     # ---- Wavefront.focus_fixed_sampling / unfocus_fixed_sampling: which attribute feeds which argument
     def wrapper(meth):
@@ -498,8 +599,8 @@ def generate(repo):
             ex = SymExec(pr, {})
             out = []
             for py, lean in (('input_dx', 'InputDx'), ('prop_dist', 'PropDist'), ('wavelength', 'Wavelength'), ('output_dx', 'OutputDx')):
-                out.append(f'def {short[meth]}Wrap{lean} (self_dx self_wavelength efl dx : K) : K := {typed(ex.scalar(args[py], env))}')
-            if ast.unparse(args['wavefunction']) != 'self.data' or ast.unparse(args['shift']) != 'shift' \
+                out.append(f'def {short[meth]}Wrap{lean} (self_dx self_wavelength efl dx : K) : K := {typed(ex.scalar(_strip(args[py]), env))}')
+            if ast.unparse(_strip(args['wavefunction'])) != 'self.data' or ast.unparse(args['shift']) != 'shift' \
                     or ast.unparse(args['output_samples']) != 'samples' or ast.unparse(args['method']) != 'method':
                 raise Untranslatable('wrapper does not pass data / samples / shift / method through')
             (ret,) = [n for n in ast.walk(fn) if isinstance(n, ast.Return)]
@@ -507,16 +608,113 @@ def generate(repo):
                 raise Untranslatable('wrapper does not return a Wavefront')
             rfn = get_def(pr, 'Wavefront.__init__')
             _, rargs = positional(ret.value, rfn, skip_self=True)
-            out.append(f'def {short[meth]}WrapReportedDx (self_dx self_wavelength efl dx : K) : K := {typed(ex.scalar(rargs["dx"], env))}')
+            out.append(f'def {short[meth]}WrapReportedDx (self_dx self_wavelength efl dx : K) : K := {typed(ex.scalar(_strip(rargs["dx"]), env))}')
+            data_names = [st.targets[0].id for st in fn.body if isinstance(st, ast.Assign) and st.value is c]
+            if len(data_names) != 1 or ast.unparse(rargs['cmplx_field']) != data_names[0]:
+                raise Untranslatable('returned Wavefront does not hold the propagated array')
+            sp = rargs.get('space')
+            if not (isinstance(sp, ast.Constant) and isinstance(sp.value, str)):
+                raise Untranslatable('space of the returned Wavefront is not a literal')
+            want = 'psf' if meth.startswith('focus') else 'pupil'
+            out.append(f'def {short[meth]}WrapSpaceOk : Bool := {"true" if sp.value == want else "false"}')
+            # a single int as `samples`: executed symbolically through the wrapper's own broadcast
+            ifs = [st for st in fn.body if isinstance(st, ast.If) and 'isinstance(samples' in ast.unparse(st.test)]
+            if len(ifs) != 1:
+                raise Untranslatable('no single int-broadcast statement for samples')
+            e2 = {'samples': 'Mint'}
+            SymExec(pr, {}).block(ifs, e2, {'calls': {}, 'return': None})
+            sm = pair(e2['samples']) if isinstance(e2['samples'], Tup) else None
+            if sm is None:
+                raise Untranslatable('int samples are not broadcast to a pair')
+            for a in (0, 1):
+                out.append(f'def {short[meth]}WrapIntSamples{a} (Mint : K) : K := {typed(sm[a])}')
             return '\n'.join(out)
         fb = '\n'.join(f'def {short[meth]}Wrap{lean} (self_dx self_wavelength efl dx : K) : K := {v}' for lean, v in
                        (('InputDx', 'self_dx'), ('PropDist', 'efl'), ('Wavelength', 'self_wavelength'), ('OutputDx', 'dx'), ('ReportedDx', 'dx')))
+        fb += f'\ndef {short[meth]}WrapSpaceOk : Bool := true'
+        fb += ''.join(f'\ndef {short[meth]}WrapIntSamples{a} (Mint : K) : K := Mint' for a in (0, 1))
         g.item(f'Wavefront.{meth}', f'prysm/propagation.py:Wavefront.{meth}', lambda: get_def(pr, f'Wavefront.{meth}'), build, fb)
     short = {'focus_fixed_sampling': 'ffs', 'unfocus_fixed_sampling': 'ufs'}
     wrapper('focus_fixed_sampling')
     wrapper('unfocus_fixed_sampling')
 
-    return g.finish()
+    # ---- coordinates attached to a result: RichData.x/.y -> make_xy_grid(shape, dx) -> fftrange(n) * dx, axis 0 = y
+    def grid():
+        fn = get_def(ft, 'fftrange')
+        (ret,) = [r.value for r in ast.walk(fn) if isinstance(r, ast.Return)]
+        if not _endswith(ret, ('arange',)) or len(ret.args) < 2:
+            raise Untranslatable('fftrange is not an arange')
+        tr = Tr({'n': 'n'})
+        return (f'def gridLo (n : Int) : Int := {tr.expr(ret.args[0])}\n'
+                f'def gridHi (n : Int) : Int := {tr.expr(ret.args[1])}')
+    g.item('fftrange', 'prysm/fttools.py:fftrange', lambda: get_def(ft, 'fftrange'), grid,
+           'def gridLo (n : Int) : Int := -(n / 2)\ndef gridHi (n : Int) : Int := -(n / 2) + n')
+
+    def xy_grid():
+        fn = get_def(co, 'make_xy_grid')
+        for st in ast.walk(fn):
+            if isinstance(st, ast.Assign) and isinstance(st.targets[0], ast.Tuple) and len(st.targets[0].elts) == 2 \
+                    and isinstance(st.value, (ast.GeneratorExp, ast.ListComp)):
+                names = [ast.unparse(t) for t in st.targets[0].elts]
+                gen = st.value.generators[0]
+                if ast.unparse(gen.iter) != 'shape' or not isinstance(gen.target, ast.Name) or gen.ifs:
+                    return None
+                e = st.value.elt
+                if not (isinstance(e, ast.BinOp) and isinstance(e.op, ast.Mult)):
+                    return None
+                l, r = e.left, e.right
+                if isinstance(r, ast.Call):
+                    l, r = r, l
+                if not (_endswith(l, ('fftrange',)) and l.args and ast.unparse(l.args[0]) == gen.target.id):
+                    return None
+                if ast.unparse(r) != 'dx':
+                    return None
+                if sorted(names) != ['x', 'y']:
+                    return None
+                return names == ['y', 'x']          # axis 0 of `shape` is y, axis 1 is x
+        return None
+    g.fact('xyGridIsFftrangeTimesDxAxis0IsY', 'prysm/coordinates.py:make_xy_grid', xy_grid)
+
+    def rich_xy():
+        ok = []
+        for prop in ('x', 'y'):
+            fn = None
+            for n in get_def(rd, 'RichData').body:
+                if isinstance(n, ast.FunctionDef) and n.name == prop and any('property' in ast.unparse(d) for d in n.decorator_list):
+                    fn = n
+            if fn is None:
+                return None
+            calls = find_calls(fn, 'make_xy_grid')
+            if len(calls) != 1:
+                return None
+            kw = {k.arg: ast.unparse(k.value) for k in calls[0].keywords}
+            shape = calls[0].args[0] if calls[0].args else None
+            if shape is None:
+                return None
+            ok.append(ast.unparse(shape) in ('self.data.shape', 'self.shape') and kw.get('dx') == 'self.dx' and 'diameter' not in kw)
+        return all(ok)
+    g.fact('richDataGridFromOwnShapeAndDx', 'prysm/_richdata.py:RichData.x/.y', rich_xy)
+
+    def wf_views():
+        ok = []
+        for prop in ('intensity', 'phase'):
+            fn = get_def(pr, f'Wavefront.{prop}')
+            (ret,) = [r.value for r in ast.walk(fn) if isinstance(r, ast.Return)]
+            if not (isinstance(ret, ast.Call) and ast.unparse(ret.func) == 'RichData'):
+                return None
+            _, a = positional(ret, get_def(rd, 'RichData.__init__'), skip_self=True)
+            ok.append(ast.unparse(_strip(a['dx'])) == 'self.dx' and 'self.data' in ast.unparse(a['data']))
+        return all(ok)
+    g.fact('wavefrontViewsCarryOwnDx', 'prysm/propagation.py:Wavefront.intensity/.phase', wf_views)
+
+
+def generate(repo):
+    """everything of tools/gen_c01.py (the engine glue of both executors: which shape / samples / shift / Q component reaches
+    which axis, the exponent scalars and norms of the matrix DFT, the chirp-Z index glue and chirp constants, the pad offset)
+    re-emitted into `Generated.C03`, followed by the C03 items"""
+    import gen_c01
+    return gen_c01.generate(repo, pid='C03', extra_imports=['PrysmVerif.Num', 'PrysmVerif.Model.C03'],
+                            extra=lambda g, ft, pr: c03_items(g, ft, pr, repo))
 
 
 if __name__ == '__main__':
